@@ -1,7 +1,7 @@
 package main
 
 func init() {
-	register("C02", "Decided: the sender-side QoS 2 typestate on which exactly-once rests (MQTT 3.1.1 section 4.3.3). R-C02-1 stage monotonicity: after PUBREC every handle handed out is the PUBREL stage itself and no call path leads back to PUBLISH; R-C02-2 Retry re-queues exactly [continuation of the failed entry, entries not yet attempted] and executes nothing after the first failure; R-C02-3 in the PUBREL stage the only nil-error return is dominated by the receive from the PUBCOMP waiter registered under the message's id, and no handle is produced on that path; R-C02-4 the packet identifier is assigned once (R-C12-1); R-C02-5 the retry queue is resumed after every successful Connect (never zero deliveries because a queued message is stuck); R-C02-6 every failure of the QoS 2 exchange after registration carries a retry handle that the error wrappers keep (never zero deliveries because an interrupted exchange is forgotten). Not decided: delivery counts at a broker, broker-side session loss, colliding caller-chosen ids.", checkC02)
+	register("C02", "Decided: the sender-side QoS 2 typestate on which exactly-once rests (MQTT 3.1.1 section 4.3.3). R-C02-1 stage monotonicity: after PUBREC every handle handed out is the PUBREL stage itself and no call path leads back to PUBLISH; R-C02-2 Retry re-queues exactly [continuation of the failed entry, entries not yet attempted] and executes nothing after the first failure; R-C02-3 in the PUBREL stage the only nil-error return is dominated by the receive from the PUBCOMP waiter registered under the message's id, and no handle is produced on that path; R-C02-4 the packet identifier is assigned once (R-C12-1); R-C02-5 the retry queue is resumed after every successful Connect (never zero deliveries because a queued message is stuck); R-C02-6 every failure of the QoS 2 exchange after registration carries a retry handle that the error wrappers keep (never zero deliveries because an interrupted exchange is forgotten); R-C02-7 a failed publish leaves the retrying client's request closure only with its handle queued; R-C02-8 the handles of the QoS 2 exchange resume on the client Retry gives them and capture nothing of the failed attempt. Not decided: delivery counts at a broker, broker-side session loss, colliding caller-chosen ids.", checkC02)
 }
 
 func checkC02(r *Run) {
